@@ -94,6 +94,8 @@ func runC18(p *Prog, r *Result) {
 
 	r.Rule("R18c", "no byte of the pattern is promoted to a rune without a test that it is below utf8.RuneSelf: an escaped multi-byte character matches itself (0 instances on the pinned tree; armed by C17's control; the check is R17h)", 0)
 	checkByteWidenedToRune(p, r, "R18c")
+	r.Rule("R18d", "a pattern found to have no metacharacters is used as text only with its escapes removed: that is the one string it matches", 1)
+	checkLiteralPatternsUnescaped(p, r, "R18d")
 	r.Rule("R18b", "Regexp's verbatim short-cut is taken only for patterns without any regexp metacharacter", 1)
 	checkRegexpShortcut(p, r, "R18b")
 
@@ -284,6 +286,8 @@ func bodyReturnsTrue(info *types.Info, body []ast.Stmt) bool {
 }
 
 var c18Controls = []Control{
+	{Name: "literal-path-element-joined-with-its-escapes", Rule: "R18d", WantKey: "glob#part, found to have no metacharacters", File: "expand/expand.go",
+		Mutate: ctlReplaceAnywhere("\t\t\tpart := internal.UnescapePattern(part)\n", "")},
 	{Name: "regexp-shortcut-forgets-plus", Rule: "R18b", WantKey: "short-cut set covers", File: "pattern/pattern.go",
 		Mutate: ctlReplaceAnywhere("case '*', '?', '[', '\\\\', '.', '+', '(', ')', '|',", "case '*', '?', '[', '\\\\', '.', '(', ')', '|',")},
 	{Name: "quotemeta-loop-forgets-bracket", Rule: "R18", WantKey: "scan set = escape set", File: "pattern/pattern.go",
